@@ -10,7 +10,7 @@ import numpy as np
 
 from .. import groups as G
 from ..arrays import ixd
-from ..runner import Stats
+from ..runner import Stats, reset_library_state
 
 PROP = "C17"
 BUDGET = {"quick": 240, "thorough": 3000}
@@ -125,6 +125,34 @@ def law_failures(S, sym, a, b, c, unary):
     return f
 
 
+FLAG_FORMS = {"bool": (True, False), "int": (1, 0), "numpy.bool_": (np.True_, np.False_)}
+
+
+def flag_failures(S, sym, dom, st=None):
+    """the dualness flag of sign() in every representation the API accepts (bool, int 0/1, numpy.bool_), in every order
+    of first use from cold caches (the helpers behind sign() are memoised, and 1 == True share a slot)"""
+    f = []
+    for order in itertools.permutations(FLAG_FORMS):
+        reset_library_state()
+        for a in dom:
+            for form in order:
+                t, fl = FLAG_FORMS[form]
+                try:
+                    got_t, got_f = S.sign(a, t), S.sign(a, fl)
+                except Exception as e:
+                    f.append((f"C17/sign/{sym}/flag-{form}/raised-{type(e).__name__}", f"sign({a!r}, {t!r}): {e}"))
+                    continue
+                if st is not None:
+                    st.evaluations += 2
+                    st.transitions += 2
+                if got_t != G.neg(sym, a):
+                    f.append((f"C17/sign/{sym}/flag-{form}/dual", f"sign({a!r}, {t!r})={got_t!r} expected {G.neg(sym, a)!r} (first-use order {order})"))
+                if got_f != a:
+                    f.append((f"C17/sign/{sym}/flag-{form}/nondual", f"sign({a!r}, {fl!r})={got_f!r} expected {a!r} (first-use order {order})"))
+    reset_library_state()
+    return f
+
+
 def run_laws(ctx, sym, k, nchunks):
     import symmray as sr
 
@@ -155,6 +183,12 @@ def run_laws(ctx, sym, k, nchunks):
         if i < 2:
             st.sample({"kind": "laws", "sym": sym, "triple": [repr(a), repr(b), repr(c)]})
     st.states = len(seen_unary)
+    if k == 0:
+        seen = set()
+        for sig, det in flag_failures(S, sym, dom, st):
+            if sig not in seen or len(seen) < 40:
+                st.violation(sig, {"kind": "flags", "sym": sym}, det)
+            seen.add(sig)
     # validity of non-members (only where the group is finite): must be rejected
     if k == 0:
         probes = [-1, 2, 4, 5] if sym in ("Z2", "Z4") else ([(0, 2), (2, 0), (-1, 0), 0] if sym == "Z2Z2" else [])
@@ -278,6 +312,8 @@ def replay(ctx, case):
     if case["kind"] == "laws":
         a, b, c = case["triple"]
         return law_failures(sr.get_symmetry(case["sym"]), case["sym"], a, b, c, True)
+    if case["kind"] == "flags":
+        return flag_failures(sr.get_symmetry(case["sym"]), case["sym"], domain(case["sym"], 6))
     if case["kind"] == "valid":
         S = sr.get_symmetry(case["sym"])
         return [(f"C17/valid/{case['sym']}/non-member-accepted", "")] if S.valid(case["c"]) else []
